@@ -280,6 +280,30 @@ func (w *World) VerifyFunc(key string) *Unit {
 		vc.warn("%s: no return reachable", key)
 		return u
 	}
+	// what a replay of a counterexample needs
+	rc := &ReplayCtx{Fn: fn, RetCond: retCond}
+	for _, p := range fn.Params {
+		v := fr.env[p]
+		rv := ReplayVar{Name: p.Name(), T: p.Type()}
+		if pt, isPtr := p.Type().Underlying().(*types.Pointer); isPtr && v.Loc != nil && len(v.Loc.Path) == 0 {
+			rv.T = pt.Elem()
+			rv.Term = entry.cells[v.Loc.Cell]
+			rv.NilTerm = v.Nil
+			if rv.NilTerm == "" {
+				rv.NilTerm = "false"
+			}
+			rv.PostTerm = retState.cells[v.Loc.Cell]
+		} else if v.Obj != nil {
+			rv.Term = entry.cells[v.Obj]
+		} else {
+			rv.Term = v.Term
+		}
+		rc.Params = append(rc.Params, rv)
+	}
+	for i, r := range results {
+		rc.Results = append(rc.Results, ReplayVar{Name: fmt.Sprintf("result%d", i), T: r.T, Term: vc.term(retState, r)})
+	}
+	vc.Replay = rc
 	if sp == nil {
 		return u
 	}
